@@ -20,13 +20,28 @@ fn main() {
             match prop.as_str() {
                 "C01" => gen_instr::gen(&[gen_instr::Class::Data, gen_instr::Class::Lea, gen_instr::Class::Os], tier, seed, 6, 40, &mut out),
                 "C02" => gen_instr::gen(&[gen_instr::Class::Data, gen_instr::Class::Lea, gen_instr::Class::Stack, gen_instr::Class::CallRet, gen_instr::Class::Branch], tier, seed ^ 0x202, 5, 40, &mut out),
-                "C03" => gen_instr::gen(&[gen_instr::Class::Branch, gen_instr::Class::CallRet], tier, seed, 30, 300, &mut out),
-                "C04" => gen_instr::gen(&[gen_instr::Class::Stack, gen_instr::Class::CallRet], tier, seed, 40, 400, &mut out),
+                "C03" => {
+                    gen_instr::gen(&[gen_instr::Class::Branch, gen_instr::Class::CallRet], tier, seed, 30, 300, &mut out);
+                    gen_prog::gen_stack_programs(tier, seed ^ 0x303, &mut out);
+                }
+                "C04" => {
+                    gen_instr::gen(&[gen_instr::Class::Stack, gen_instr::Class::CallRet], tier, seed, 40, 400, &mut out);
+                    gen_prog::gen_stack_programs(tier, seed ^ 0x404, &mut out);
+                }
                 "C05" => gen_instr::gen_filtered(&[gen_instr::Class::Lea, gen_instr::Class::Data], tier, seed ^ 0x505, 6, 40, true, &mut out),
                 "C06" => gen_instr::gen(&[gen_instr::Class::Data], tier, seed ^ 0x606, 6, 40, &mut out),
                 "C07" => gen_c07::gen(tier, seed, &mut out),
-                "C08" => gen_mem::gen_c08(tier, seed, &mut out),
-                "C09" => gen_mem::gen_c09(tier, seed, &mut out),
+                "C08" => {
+                    gen_mem::gen_c08(tier, seed, &mut out);
+                    // guest loads and stores of every width, with the bytes around the operand observed
+                    gen_instr::gen_filtered(&[gen_instr::Class::Data, gen_instr::Class::Stack], tier, seed ^ 0x808, 2, 12, true, &mut out);
+                }
+                "C09" => {
+                    gen_mem::gen_c09(tier, seed, &mut out);
+                    gen_elf::gen_perm_cases(tier, seed, &mut out);
+                    // guest accesses to read-only / unmapped / straddling operands
+                    gen_instr::gen_filtered(&[gen_instr::Class::Data, gen_instr::Class::Stack], tier, seed ^ 0x909, 2, 12, true, &mut out);
+                }
                 "C10" => gen_mem::gen_c10(tier, seed, &mut out),
                 "C11" => gen_prog::gen_c11(tier, seed, &mut out),
                 "C12" => gen_prog::gen_c12(tier, seed, &mut out),
